@@ -61,5 +61,32 @@ theorem avgScVec_spec (a : Alphabet) (h : a.WFDegen) (hK : a.K + 4 ≤ a.Kp) (sc
   · rw [if_pos c, if_pos (by omega)]
   · rw [if_neg c, if_neg (by omega)]
 
+/-- `esl_abc_{F,D}ExpectScVec(a, sc, p)` on a `Kp`-long vector: every degenerate slot `K < x ≤ Kp-3` receives the `p`-weighted
+    mean of the canonical scores over the set of `x`; the other slots are untouched; no out-of-bounds access -/
+theorem expectScVec_spec (a : Alphabet) (h : a.WFDegen) (hK : a.K + 4 ≤ a.Kp) (sc p : List ℚ) (hl : sc.length = a.Kp)
+    (hp : a.K ≤ p.length) :
+    ∃ r, a.expectScVec sc p = some r ∧ r.length = a.Kp ∧
+      ∀ x, r.getD x 0 = if a.K < x ∧ x + 3 ≤ a.Kp
+        then ((a.degenSet x).map fun i => sc.getD i 0 * p.getD i 0).sum / ((a.degenSet x).map fun i => p.getD i 0).sum
+        else sc.getD x 0 := by
+  have hf : ∀ x cur, a.K < x → x + 3 ≤ a.Kp → cur.length = a.Kp → (∀ i, i ≤ a.K → cur.getD i 0 = sc.getD i 0) →
+      a.expectScore x cur p = some (((a.degenSet x).map fun i => sc.getD i 0 * p.getD i 0).sum /
+        ((a.degenSet x).map fun i => p.getD i 0).sum) := by
+    intro x cur hx hx3 hcl hag
+    have hres : a.xIsResidue x = true := by
+      simp only [xIsResidue, Bool.or_eq_true, Bool.and_eq_true, decide_eq_true_eq]; right; omega
+    rw [expectScore_weighted a h x (by omega) hres cur p (by omega) hp]
+    congr 3
+    apply List.map_congr_left
+    intro i hi
+    rw [hag i (by have := degenSet_lt a x i hi; omega)]
+  obtain ⟨r, h1, h2, h3⟩ := scVecLoop_spec a.Kp a.K sc (fun x cur => a.expectScore x cur p) _ hf
+    (a.Kp - 3 - a.K) (a.K + 1) sc (by omega) (by omega) hl (fun _ _ => rfl)
+  refine ⟨r, h1, h2, fun x => ?_⟩
+  rw [h3]
+  by_cases c : a.K < x ∧ x + 3 ≤ a.Kp
+  · rw [if_pos c, if_pos (by omega)]
+  · rw [if_neg c, if_neg (by omega)]
+
 end Alphabet
 end EaselModel.Alphabet
